@@ -222,7 +222,10 @@ impl SvgElement {
         // TODO: would be nice to get rid of this; it's mostly handled
         // in `set_position_attrs`, but if there is no bbox (e.g. no width/height)
         // then that won't do anything and this does.
-        if !matches!(self.name.as_str(), "text" | "tspan" | "feOffset") {
+        if !matches!(
+            self.name.as_str(),
+            "text" | "tspan" | "tref" | "altGlyph" | "glyphRef" | "feOffset" | "feDropShadow"
+        ) {
             let dx = self.pop_attr("dx");
             let dy = self.pop_attr("dy");
             let mut d_x = None;
